@@ -67,6 +67,11 @@ MonthS(e) ==
   /\ anyEaten' = (anyEaten \/ SLt(Zero, e.feedEaten))
   /\ UNCHANGED <<hb, hended>>
 
+\* a round whose meat and milk cannot be traced to a herd simulation of this very run (none was built in this run for it)
+NoHerdS == /\ Ck("HerdSimulatedThisRun", FALSE)
+           /\ hended' = TRUE
+           /\ UNCHANGED <<hb, hmon, meatOffered, meatDerived, anyCharge, anyEaten>>
+
 EndS ==
   /\ Ck("AllMonths", hmon = hb.n)
   /\ Ck("MeatTotalFromHerd", hb.addMeat => EqT(meatOffered, meatDerived, NOfScaled(1000, 2), NOfScaled(1000, 3)))
